@@ -85,6 +85,17 @@ def main():
     if not only:
         with open(os.path.join(HERE, "results.json"), "w") as fh:
             json.dump({"repo_head": head, "summary": summary, "results": results}, fh, indent=1)
+    elif os.environ.get("SELFTEST_MERGE"):
+        # re-run of single variants: replace their entries in the stored results
+        rp = os.path.join(HERE, "results.json")
+        old = json.load(open(rp))
+        byid = {r["id"]: r for r in results}
+        merged = [byid.pop(r["id"], r) for r in old["results"]] + list(byid.values())
+        summ = {}
+        for r in merged:
+            summ[r["status"]] = summ.get(r["status"], 0) + 1
+        with open(rp, "w") as fh:
+            json.dump({"repo_head": head, "summary": summ, "results": merged}, fh, indent=1)
     print(summary)
 
 
